@@ -539,6 +539,14 @@ impl serde::Serializer for MapKeySerializer {
         self.serialize_str(itoa::Buffer::new().format(value))
     }
 
+    fn serialize_i128(self, value: i128) -> Result<Value> {
+        self.serialize_str(itoa::Buffer::new().format(value))
+    }
+
+    fn serialize_u128(self, value: u128) -> Result<Value> {
+        self.serialize_str(itoa::Buffer::new().format(value))
+    }
+
     fn serialize_f32(self, value: f32) -> Result<Value> {
         if value.is_finite() {
             self.serialize_str(ryu::Buffer::new().format_finite(value))
@@ -594,11 +602,12 @@ impl serde::Serializer for MapKeySerializer {
         Err(key_must_be_str_or_num(Unexpected::Other("none")))
     }
 
-    fn serialize_some<T>(self, _value: &T) -> Result<Value>
+    fn serialize_some<T>(self, value: &T) -> Result<Value>
     where
         T: ?Sized + Serialize,
     {
-        Err(key_must_be_str_or_num(Unexpected::Option))
+        // as in the text serializer: `Some(key)` is the key itself
+        value.serialize(self)
     }
 
     fn serialize_seq(self, _len: Option<usize>) -> Result<Self::SerializeSeq> {
